@@ -20,7 +20,8 @@ def run(c):
         # sequential half: a request is accepted exactly when every bounded source stays within its allowance after
         # the postings applied in order (Ledger!FundsOK) - incl. scripts using one bounded-overdraft source twice
         d = L.build_pipeline(c.tier, c.seed)
-        L.evaluate(c, PROP, d, extra_preds=("Step_C25_Funds",))
+        # (a non-forced revert that would overdraw an account must be refused too: Step_C15_RevertOutcome)
+        L.evaluate(c, PROP, d, extra_preds=("Step_C25_Funds", "Step_C15_RevertOutcome"))
         pred, mut = M.CONTROLS[PROP]
         c.set("negative_control_sequential", L.negative_control(d, c.seed, pred, mut))
     dc = K.build_conc(c.tier, c.seed, PROP)
